@@ -1,7 +1,91 @@
 import Rdm.Ops.Codec
+import Rdm.Ops.Ranking
+import Rdm.Spec.C03
+import Rdm.Generated.Facts
 namespace Rdm.Ops
 open Rdm
 
-def utilityOps : List (String × (List SExp → R SExp)) := []
+def encScoredR (r : R Float) : SExp := encR r SExp.num
+
+/-- `(ws-value alt (wcrit...))` -/
+def opWsValue (args : List SExp) : R SExp := do
+  match args with
+  | [a, wc] => pure (encScoredR (weightedSum (← decAlt a) (← wc.mapList decWCrit)))
+  | _ => throw "ws-value: arity"
+
+/-- `(owa-value alt (wcrit...))` -/
+def opOwaValue (args : List SExp) : R SExp := do
+  match args with
+  | [a, wc] => pure (encScoredR (owa (← decAlt a) (← wc.mapList decWCrit)))
+  | _ => throw "owa-value: arity"
+
+/-- `(choquet-value alt (crit...) rawWeights)`: parse + integral, as `ChoquetIntegral` -/
+def opChoquetValue (args : List SExp) : R SExp := do
+  match args with
+  | [a, cs, w] =>
+    let alt : Alt Float ← decAlt a
+    let r := do
+      let pw ← choquetParse (← decCrits cs) (← decNumMap w)
+      choquetValue (Num.ofConst Facts.choquetEps) alt pw
+    pure (encScoredR r)
+  | _ => throw "choquet-value: arity"
+
+/-- the value a utility method gives an alternative under parsed parameters -/
+def utilityValue (mp : MParams Float) (a : Alt Float) : R Float :=
+  match mp with
+  | .ws wc => weightedSum a wc
+  | .owa wc => owa a wc
+  | .choquet w _ => choquetValue (Num.ofConst Facts.choquetEps) a w
+  | _ => throw "not-a-utility-method"
+
+/-- `(utility-evaluate dmp)`: `Evaluate` of the three utility methods = `Rank` → ranking entries -/
+def opUtilityEvaluate (args : List SExp) : R SExp := do
+  match args with
+  | [d] =>
+    let dmp : DMP Float ← decDMP d
+    let r : R (List (RankEntry Float)) := do
+      let scored ← dmp.co.mapM fun a => do pure (⟨a.id, ← utilityValue dmp.mp a⟩ : Scored Float)
+      pure (ranking scored)
+    pure (encR r fun l => .list (l.map encEntry))
+  | _ => throw "utility-evaluate: arity"
+
+/-- `(check-c03 method alt params value)` — exact comparison of Go's value with the defining
+    formula.  `params`: `(wcrit...)` for ws/owa, parsed capacity map for choquet.
+    Answers `ok`, `skip:<why>` (ill-conditioned, not alarmed) or the failing clause. -/
+def opCheckC03 (args : List SExp) : R SExp := do
+  match args with
+  | [m, a, p, v] =>
+    let method ← m.asStr
+    let alt : Alt Rat ← decAlt a
+    let got : Rat ← v.asNum
+    let eps : Rat := Num.ofConst Facts.choquetEps
+    if method == "weightedSum" then
+      let wc : List (WCrit Rat) ← p.mapList decWCrit
+      match Spec.C03.wsSpec alt wc with
+      | none => pure (.atom "skip:missing-value")
+      | some want =>
+        let scale := Spec.C03.sum (wc.map fun c => Spec.C03.rabs (c.w * ((alt.vals.get? c.crit.id).getD 0)))
+        pure (.atom (if Spec.C03.close got want scale then "ok" else "ws-formula"))
+    else if method == "owa" then
+      let wc : List (WCrit Rat) ← p.mapList decWCrit
+      let vals := alt.vals.map (·.2)
+      let ws := wc.map (·.w)
+      let want := Spec.C03.owaSpec vals ws
+      let scale := Spec.C03.sum ((Spec.C03.sortAsc vals).zip (Spec.C03.sortAsc ws) |>.map fun q => Spec.C03.rabs (q.1 * q.2))
+      pure (.atom (if Spec.C03.close got want scale then "ok" else "owa-formula"))
+    else if method == "choquetIntegral" then
+      let w : KMap Rat ← decNumMap p
+      if !Spec.C03.tiesUnambiguous eps alt then pure (.atom "skip:ambiguous-ties") else
+      match Spec.C03.choquetSpec eps alt w with
+      | none => pure (.atom "skip:missing-capacity")
+      | some want =>
+        let scale := Spec.C03.sum (alt.vals.map fun q => Spec.C03.rabs q.2)
+        pure (.atom (if Spec.C03.close got want scale then "ok" else "choquet-formula"))
+    else pure (.atom "skip:not-utility")
+  | _ => throw "check-c03: arity"
+
+def utilityOps : List (String × (List SExp → R SExp)) :=
+  [("ws-value", opWsValue), ("owa-value", opOwaValue), ("choquet-value", opChoquetValue),
+   ("utility-evaluate", opUtilityEvaluate), ("check-c03", opCheckC03)]
 
 end Rdm.Ops
